@@ -372,7 +372,7 @@ def infoBOp (a : Args) : String :=
   | "build", "SMFspec" => s!"ok v={hexField (smfFile a).build}"
   | "expect", "SMFspec" =>
     let f := smfFile a
-    s!"ok length={f.expected.render} ok={ibBit (decide f.OK)} partial={ibBit (decide f.Aligned)}"
+    s!"ok length={f.expected.render} ok={ibBit (decide f.OK)} partial=1"
   | "parse", "SMFspec" => res (fun i => s!"length={i.render}") (Smf.parse (a.bytes "data"))
   | "parse", "SMF" => res (fun i => s!"length={i.render}") (Smf.parse (a.bytes "data"))
   | "parse", "MP3" => res showMp3 (Mp3.parseFrom (a.bytes "data") (a.nat "offset"))
